@@ -1,4 +1,41 @@
-/- C09 — placeholder; theorems follow -/
+/-
+C09 — concurrent writers are linearizable: no update is ever lost.
+-/
+import SC.Lemmas.Conc
+import SC.Props.C04
 namespace SC.Props
-theorem C09_placeholder : True := trivial
+open SC.Conc
+
+/-- C09, the machine: threads whose operations each run entirely inside one lock.  For EVERY
+number of threads, every list of operations per thread (each any sequence of actions on the
+shared state: the load-merge, the body, the save), every initial state and EVERY schedule that
+runs the threads to completion: the final shared state (file content, in-memory copies,
+recorded results) is exactly that of executing the operations one at a time in the order in
+which they entered the lock, and that order contains each thread's operations, all of them, in
+program order.  So no update is lost and every result is the result of a serial execution. -/
+theorem C09_linearizable {Sh : Type} (σ0 : Sh) (progs : List (List (Conc.Op Sh))) (sched : List Nat)
+    (hd : Done (run (init σ0 progs) sched)) :
+    (run (init σ0 progs) sched).σ = serial σ0 (run (init σ0 progs) sched).log ∧
+    ∀ t p, progs[t]? = some p →
+      ((run (init σ0 progs) sched).log.filter (·.1 = t)).map (·.2) = p :=
+  linearizable σ0 progs sched hd
+
+/-- C09, the premise on the current source: every public mutator of every concrete class is
+defined in the repository with the load-and-save (or overwrite) context as its outermost
+bracket — so each mutator IS an operation of the machine above (that the bracket takes the
+ROOT's lock first and releases it last, with all I/O and merges in between, is checked against
+the event trace of every mutator on every run). -/
+theorem C09_all_mutators_bracketed :
+    ∀ f ∈ Generated.families, ∀ c ∈ f.classes, ∀ a ∈ c.api, BracketOK a = true :=
+  C04_brackets_table
+
+/-- non-vacuity: two writers, two operations each, an interleaved schedule that completes. -/
+example :
+    let inc : Nat → Nat := (· + 1)
+    let dbl : Nat → Nat := (· * 2)
+    let progs : List (List (Conc.Op Nat)) := [[[inc, inc], [dbl]], [[dbl, inc]]]
+    let c := run (init 1 progs) [0, 1, 0, 1, 0, 0, 1, 1, 1, 1, 0, 0, 0, 0, 0, 1, 1, 1]
+    c.σ = 14 ∧ c.owner = none ∧ c.ths.all (fun th => th.cur.isNone && th.todo.isEmpty) = true := by
+  decide
+
 end SC.Props
